@@ -1,7 +1,7 @@
 """C05 Wrapping is lossless, width-bounded and maximal (structural clauses)."""
 
 from ..report import Ctx
-from ..rules import hazard, wrap
+from ..rules import hazard, layout, wrap
 
 EXPLANATION = (
     'Decided: (L1) on every acyclic path through the fill loop the current word is placed exactly once, and the placed value is the '
@@ -18,6 +18,7 @@ EXPLANATION = (
 
 
 def run(ctx: Ctx) -> None:
+    ctx.rule('R-LAYOUT-Y4', 'whatever the width, the Markdown wrappers are hard_break(tag_newline(base)): one line per hard-break / tag-delimited segment needs the decorators at width <= 0 too')
     ctx.rule('R-MEMO', 'a value kept across calls (closure / module / instance table) is keyed by everything it was computed from')
     ctx.rule('R-LOSSLESS-L1', 'each word is placed exactly once per iteration, unmodified or escaped')
     ctx.rule('R-LOSSLESS-L3', 'accumulators reset in a loop are flushed after it')
@@ -34,3 +35,4 @@ def run(ctx: Ctx) -> None:
     ctx.run(wrap.check_paragraph_independence)
     ctx.run(hazard.check_escape_action)
     ctx.run(wrap.check_wrapping_memos)
+    ctx.run(layout.check_decorator_stack)
